@@ -51,18 +51,28 @@ def _mc(ctx):
         runs = [(['c1', 'c2'], True, 2, 0, 1), (['c1', 'c2'], False, 2, 1, 1),
                 (['c1', 'c2', 'c3'], False, 1, 1, 10)]
 
+    # beyond C16 (DESIGN 5 / 10.6): AllocPorts with every outcome of the allocation algorithm
+    runs.append((['c1', 'c2'], 'ports', 1, 0, 1))
+
     def one(run):
         containers, big, maxfin, fail, thin = run
-        sp = {c: v[::thin] for c, v in _spaces(containers, big).items()}
+        if big == 'ports':
+            sp = {c: nd.ports_space() for c in containers}
+        else:
+            sp = {c: v[::thin] for c, v in _spaces(containers, big).items()}
         mod, cfg, files = nd.mc_files(containers, sp, max_finish=maxfin, max_fail=fail,
-                                      tag='_%d_%d%d' % (len(containers), fail, thin))
+                                      alloc_any=(big == 'ports'),
+                                      tag='_%d_%d%d%s' % (len(containers), fail, thin,
+                                                          'p' if big == 'ports' else ''))
         return run, sp, tlc.mc(nd.SPEC_DIR, mod, cfg, extra_files=files, workers=8, heap='6g',
                                coverage=False, timeout=150 if ctx.quick else 800)
     cex = []
     with concurrent.futures.ThreadPoolExecutor(len(runs)) as ex:
-        for (containers, _big, maxfin, fail, _thin), sp, res in ex.map(one, runs):
-            ctx.add_mc('NetReg %d containers, %s manifests each, finish<=%d, aborted attempts<=%d' % (
-                len(containers), '/'.join(str(len(sp[c])) for c in containers), maxfin, fail), res)
+        for (containers, big, maxfin, fail, _thin), sp, res in ex.map(one, runs):
+            ctx.add_mc('NetReg %d containers, %s manifests each, finish<=%d, aborted attempts<=%d%s' % (
+                len(containers), '/'.join(str(len(sp[c])) for c in containers), maxfin, fail,
+                ', AllocPorts: any outcome (pools %s, busy %s)' % (nd.PORT_POOLS, nd.BUSY)
+                if big == 'ports' else ''), res)
             if res['timed_out'] and ctx.quick:
                 raise tlc.MachineryError('model checking of NetReg did not finish')
             if res['violated']:
@@ -135,12 +145,18 @@ def judge(ctx, traces, verdicts):
     by_tid = {t['tid']: t for t in traces}
     violations, nontrivial, flags = [], set(), collections.Counter()
     harness_exc = 0
+    ext_failed, ext_evals = collections.Counter(), 0
     for v in verdicts:
         t = by_tid[v['tid']]
         fails = set(v['fail'])
         line = t['lines'][v['i']]
-        if fails & {'drift.step', 'drift.alloc'}:
+        if fails & {'drift.step', 'drift.alloc'} or any(f.startswith('ext.') for f in fails):
             ctx.drift += 1
+        for f in fails:
+            if f.startswith('ext.'):
+                ext_failed[f] += 1
+        if 'ext.ports' in v['ex']:
+            ext_evals += 1
         if line['ev'] == 'Start' and line['res'] == 'raise':
             harness_exc += 1
         flags.update(v['ex'])
@@ -171,7 +187,12 @@ def judge(ctx, traces, verdicts):
         distinct_nontrivial=len(nontrivial), rule=RULE, samples=samples,
         traces_validated=len(traces), assumptions=ASSUMPTIONS,
         extra=dict(trace_sources=dict(collections.Counter(t.get('src') for t in traces)),
-                   exercised=dict(flags), starts_raised=harness_exc))
+                   exercised=dict(flags), starts_raised=harness_exc,
+                   extensions=dict(
+                       what='port allocation (runtime.allocate_network_ports): ext.ports.range / distinct / '
+                            'assign / held on every recorded start; model: AllocPorts with InvPorts',
+                       clauses=['ext.ports.range', 'ext.ports.distinct', 'ext.ports.assign', 'ext.ports.held'],
+                       evaluations=ext_evals, failed=dict(ext_failed))))
 
 
 def run(ctx):
@@ -235,7 +256,15 @@ def selftest(ctx):
 
         def c_repeat_raises(line):
             line['res'] = 'raise'
-        cases = [('rule-left', 3, c_rule_left, 'C16.clean'), ('set-left', 3, c_set_left, 'C16.clean'),
+        def c_port_range(line):     # an allocated port outside the range of the environment
+            p = line['rm']['etcp'][0]
+            line['rm']['num'][p] = 1000
+
+        def c_port_closed(line):    # a socket was closed before the manifest was saved
+            line['socks'] = line['socks'][1:]
+        cases = [('port-out-of-range', 1, c_port_range, 'ext.ports.range'),
+                 ('socket-not-held', 1, c_port_closed, 'ext.ports.held'),
+                 ('rule-left', 3, c_rule_left, 'C16.clean'), ('set-left', 3, c_set_left, 'C16.clean'),
                  ('takes-foreign-rule', 3, c_other_rule, 'C16.others'),
                  ('takes-foreign-member', 3, c_other_set, 'C16.others'),
                  ('repeat-changes', 4, c_repeat_changes, 'C16.idempotent'),
